@@ -43,6 +43,24 @@ var Presets = map[string]*Config{
 			Fuel: map[string]string{"findFileMarker#1": "data.length + 1"},
 		}
 	}(),
+	// golang.org/x/tools/txtar/archive.go (the module-cache copy of the version /repo's go.mod requires): the
+	// REFERENCE Format / Parse / findFileMarker / isMarker / fixNL.  No configured globals: the package-level
+	// `marker`, `markerEnd`, `newlineMarker` are inlined as the literals the library source gives.  strings.TrimSpace
+	// is the same modelled function as in preset "txtar"; Format's bytes.Buffer / fmt.Fprintf are translator rules.
+	"xtxtar": func() *Config {
+		lib := bytesLib()
+		lib["strings.TrimSpace"] = LibFn{Lean: "GIV.Txtar.trimSpace", Ret: TBytes}
+		file := &Type{K: KStruct, Name: "GoFile"}
+		return &Config{
+			Lib:     lib,
+			Globals: map[string]Global{},
+			Structs: map[string]*Struct{
+				"File":    {Lean: "GoFile", Fields: []Field{{"Name", "Name", TBytes}, {"Data", "Data", TBytes}}},
+				"Archive": {Lean: "GoArchive", Fields: []Field{{"Comment", "Comment", TBytes}, {"Files", "Files", &Type{K: KList, Elem: file}}}},
+			},
+			Fuel: map[string]string{"findFileMarker#1": "data.length + 1"},
+		}
+	}(),
 	"script": func() *Config {
 		lib := bytesLib()
 		lib["ts.expand"] = LibFn{Lean: "GIV.Script.expand env", Ret: TBytes}
